@@ -24,8 +24,11 @@ def sh(cmd, cwd=None, env=None, timeout=900):
     return p.returncode, p.stdout
 
 
+OFFSET = 0
+
+
 def confirm(root, pid, k):
-    tag = '%s-m%s' % (pid, k)
+    tag = '%s-m%s' % (pid, int(k) + OFFSET)
     src = os.path.join(root, pid)
     patch = os.path.join(src, 'm%s.diff' % k)
     demo = os.path.join(src, 'demo_m%s.py' % k)
@@ -87,6 +90,11 @@ def confirm(root, pid, k):
 
 
 def main():
+    global OFFSET
+    if '--offset' in sys.argv:
+        i = sys.argv.index('--offset')
+        OFFSET = int(sys.argv[i + 1])
+        del sys.argv[i:i + 2]
     root = sys.argv[1]
     ids = sys.argv[2:] or sorted(d for d in os.listdir(root) if os.path.isdir(os.path.join(root, d)))
     jobs = []
